@@ -3,6 +3,9 @@
 #   swcgeom/utils/file.py::FileReader.__init__        (str / bytes / path vs stream dispatch, `encoding == "detect"` -> detect_encoding)
 #   swcgeom/utils/file.py::FileReader.__enter__       (TextIOWrapper for a binary stream, `open` for a name, the caller's own text stream)
 #   swcgeom/core/swc_utils/io.py::parse_swc           the statement `extras = list(extra_cols) if extra_cols else []` (segment)
+#   swcgeom/core/swc_utils/base.py::SWCNames.cols, get_names
+#   swcgeom/core/swc_utils/io.py::read_swc            first half (segment): `names = get_names(names)`, the call of `parse_swc` (an EXTERNAL
+#                                                     function parameter `parse_swc_`; in the composition it is the generated parse_swc pipeline)
 #
 # New constructs (GENERAL Python idioms; their meaning is lean/SwcVerif/Model/PyReadFront.lean), added through the extension hooks:
 #   isinstance(x, TextIOBase) / isinstance(x, BytesIO)   on a `PathOrIO` value (`PySrc` = Py.Src) and on an optional one (`self.fb`)
@@ -13,6 +16,12 @@
 #   x or "lit"  (x an optional str)                      Py.strOr
 #   A if xs else B  (xs an optional list)                truthiness of None / [] is false (Py.optListTruthy); `list(xs)` = Py.optList
 #   a.x, b.y, c.z = K1, K2, K3  (constants)              the single assignments in order
+#   f"…{e}…" (e a str / int), sep.join(xs)              concatenation (Py.strInt for an int), Py.strJoin
+#   re.compile(p)                                        the pattern text `p` (a compiled pattern is represented by its text)
+#   x or y  (x an optional NamedTuple with fields)        `x` unless it is None (a non-empty tuple is true): Option.getD
+#   f(a, k=b, …) with f an EXTERNAL function (EXT_FNS)   the arguments are bound to the parameters of f's OWN `def` in the current source (positional,
+#                                                        keyword, defaults `None` / str literals), and handed to the pure parameter `f_` in that order
+#   p = g(p)  (p a parameter re-bound to another type)  the parameter enters with its declared version (`names#2` is the re-bound one)
 #   f(args) where the callee has WORLD parameters        (name ends in `_`: the answer of an external library / the warnings log): the caller's
 #                                                        variable of the same name is passed (and written back if it is an out-parameter)
 #
@@ -23,9 +32,54 @@
 #                     subst  `chardet.detect(data)` -> chardet_ ; `result['encoding']` -> its first, `result['confidence']` -> its second component
 #   FileReader:       `self.kwargs` is `Unit` (keyword arguments handed through to `open`)
 #   parse_swc (segment): none
-MODULE_MODEL_IMPORTS["AlgoReadFront"] = ["PyReadFront"]
+#   parse_swc (prologue segment): subst `RE_FLOAT` -> Gen.Consts.reFloat (the module constant, extracted on every run), `int` -> 0, `float` -> 1
+#                     (the conversion applied to a column = the dtype pandas infers for it: 0 = int64, 1 = float64)
+#   SWCNames.cols:    none (`SWCNames` is the record of its seven fields)
+#   get_names:        subst  `swc_names` -> the record of the defaults of the class (Gen/Consts.lean `name_*`, extracted from SWCNames on every run)
+#   read_swc (segment):  `parse_swc` is the pure parameter `parse_swc_ : fname -> names -> extra_cols -> encoding -> Option (DF × CM)`
+MODULE_MODEL_IMPORTS["AlgoReadFront"] = ["PyReadFront", "PyWriter"]
+MODULE_IMPORTS["AlgoReadFront"] = ["Consts"]
 STRUCTS["FileReaderFull"] = {"fname": "PySrc", "fb": "Option PySrc", "f": "Option PySrc", "encoding": "String", "kwargs": "Unit"}
-MODULE_STRUCTS["AlgoReadFront"] = ["FileReaderFull"]
+STRUCTS["SWCNames7"] = {k: "String" for k in ["id", "type", "x", "y", "z", "r", "pid"]}
+MODULE_STRUCTS["AlgoReadFront"] = ["FileReaderFull", "SWCNames7"]
+
+# EXTERNAL functions handed in as pure parameters: python callee text -> (lean parameter name, file, function, lean result type);
+# a call is bound to the parameters of the callee's own `def` (read from the current source)
+EXT_FNS = {"parse_swc": ("parse_swc_", "swcgeom/core/swc_utils/io.py", "parse_swc", "DF × CM")}
+
+
+def _rf_ext_call(tr, e, f):
+    pname, file, func, rty = EXT_FNS[f]
+    if pname not in [b.split()[0].strip("(") for b in tr.spec.fparams]:
+        return None
+    p = REPO / file
+    if p not in _AST_CACHE:
+        _AST_CACHE[p] = ast.parse(p.read_text())
+    a = find_def(_AST_CACHE[p], None, func).args
+    if a.vararg or a.kwarg:
+        raise Untranslatable(f"{tr.spec.lean}: external callee `{f}` with *args / **kwargs")
+    pos = a.posonlyargs + a.args
+    dflt = {x.arg: d for x, d in zip(pos[len(pos) - len(a.defaults):], a.defaults)}
+    dflt.update({x.arg: d for x, d in zip(a.kwonlyargs, a.kw_defaults) if d is not None})
+    if len(e.args) > len(pos) or any(k.arg is None for k in e.keywords):
+        raise Untranslatable(f"{tr.spec.lean}: call `{ast.unparse(e)}`")
+    bound = {x.arg: v for x, v in zip(pos, e.args)}
+    for k in e.keywords:
+        if k.arg in bound or k.arg not in [x.arg for x in pos + a.kwonlyargs]:
+            raise Untranslatable(f"{tr.spec.lean}: keyword `{k.arg}` in `{ast.unparse(e)}`")
+        bound[k.arg] = k.value
+    steps, codes = [], []
+    for x in pos + a.kwonlyargs:
+        v = bound.get(x.arg, dflt.get(x.arg))
+        if v is None:
+            raise Untranslatable(f"{tr.spec.lean}: parameter `{x.arg}` of `{f}` is not bound in `{ast.unparse(e)}`")
+        want = {"extra_cols": ("Option", ("List", "String")), "encoding": "String"}.get(x.arg)
+        s0, c, t = tr.tr(v, want)
+        if want is not None and t != want:
+            c = tr.coerce(c, t, want)
+        steps += s0; codes.append(c)
+    n = tr.bindname()
+    return steps + [f"Py.bind ({pname} {' '.join(codes)}) fun {n} =>"], n, parse_type(rty)
 
 _RF_FILE = "swcgeom/utils/file.py"
 _RF_OPT_SRC = ("Option", "PySrc")
@@ -48,6 +102,25 @@ def _rf_expr(tr, e, want):
     # a str literal where a PathOrIO is expected
     if isinstance(e, ast.Constant) and isinstance(e.value, str) and want == "PySrc":
         return [], f"(Py.Src.path {json.dumps(e.value)})", "PySrc"
+    if isinstance(e, ast.JoinedStr):
+        steps, parts = [], []
+        for p in e.values:
+            if isinstance(p, ast.Constant) and isinstance(p.value, str):
+                parts.append(lean_string(p.value))
+            elif isinstance(p, ast.FormattedValue) and p.conversion == -1 and p.format_spec is None:
+                s0, c, t = tr.tr(p.value)
+                if t not in ("String", "Int"):
+                    return None
+                steps += s0; parts.append(c if t == "String" else f"(Py.strInt {c})")
+            else:
+                return None
+        return steps, "(" + " ++ ".join(parts or ['""']) + ")", "String"
+    if isinstance(e, ast.Call) and isinstance(e.func, ast.Attribute) and e.func.attr == "join" and len(e.args) == 1 and not e.keywords:
+        s0, c, t = tr.tr(e.func.value)
+        s1, c1, t1 = tr.tr(e.args[0])
+        if t == "String" and t1 == ("List", "String"):
+            return s0 + s1, f"(Py.strJoin {c} {c1})", "String"
+        return None
     if isinstance(e, ast.Call):
         f = ast.unparse(e.func)
         if f == "isinstance" and len(e.args) == 2 and not e.keywords and ast.unparse(e.args[1]) in ("TextIOBase", "BytesIO"):
@@ -84,6 +157,11 @@ def _rf_expr(tr, e, want):
                 n = tr.bindname()
                 return s0 + [f"Py.bind (Py.optList {c}) fun {n} =>"], n, t[1]
             return None
+        if f == "re.compile" and len(e.args) == 1 and not e.keywords:
+            s0, c, t = tr.tr(e.args[0])            # a compiled pattern is represented by its pattern text
+            return (s0, c, t) if t == "String" else None
+        if f in EXT_FNS:
+            return _rf_ext_call(tr, e, f)
         callee = tr.table.get(f)
         if callee is not None and callee is not tr.spec:
             wp = [p for p in _rf_world_params(callee) if p not in [k.arg for k in e.keywords]]
@@ -103,6 +181,8 @@ def _rf_expr(tr, e, want):
         s1, c1, t1 = tr.tr(e.values[1])
         if t == ("Option", "String") and t1 == "String" and not s1:
             return s0, f"(Py.strOr {c} {c1})", "String"
+        if isinstance(t, tuple) and t[0] == "Option" and t[1] == t1 and isinstance(t1, str) and STRUCTS.get(t1) and not s1:
+            return s0, f"(({c}).getD {c1})", t1
         return None
     if isinstance(e, ast.IfExp):
         s0, c, t = tr.tr(e.test)
@@ -118,6 +198,12 @@ def _rf_expr(tr, e, want):
 
 
 def _rf_stmt(tr, s):
+    # a PARAMETER that is re-bound to a value of another type (`names = get_names(names)`) enters with its declared (first) version
+    todo = [n for n in tr.versions if tr.cur.get(n) is None and n in tr.spec.params]
+    if todo:
+        for n in todo:
+            tr.cur[n] = n
+        return tr.stmt(s)
     if (isinstance(s, ast.Assign) and len(s.targets) == 1 and isinstance(s.targets[0], ast.Tuple) and isinstance(s.value, ast.Tuple)
             and len(s.targets[0].elts) == len(s.value.elts) and all(isinstance(x, ast.Constant) for x in s.value.elts)):
         new = []
@@ -161,3 +247,35 @@ spec(lean="parse_swc_extras", module="AlgoReadFront", file="swcgeom/core/swc_uti
      params=["extra_cols"], vars={"extra_cols": "Option (List String)", "extras": "List String"}, ret="Unit", out=["extras"],
      seg_from="extras = list(extra_cols) if extra_cols else []", seg_to="extras = list(extra_cols) if extra_cols else []",
      doc="`swcgeom/core/swc_utils/io.py::parse_swc`, the statement `extras = list(extra_cols) if extra_cols else []` (`extra_cols` is None or a list)")
+
+_RF_BASE = "swcgeom/core/swc_utils/base.py"
+spec(lean="swc_names_cols", module="AlgoReadFront", file=_RF_BASE, cls="SWCNames", func="cols", callee=["names.cols"], params=["self"], vars={"self": "SWCNames7"},
+     ret="List String", doc="`swcgeom/core/swc_utils/base.py::SWCNames.cols`")
+
+_RF_DEFAULT_NAMES = "({ id := Gen.Consts.name_id, type := Gen.Consts.name_type, x := Gen.Consts.name_x, y := Gen.Consts.name_y, " \
+                    "z := Gen.Consts.name_z, r := Gen.Consts.name_r, pid := Gen.Consts.name_pid } : SWCNames7)"
+spec(lean="parse_swc_prologue", module="AlgoReadFront", file="swcgeom/core/swc_utils/io.py", func="parse_swc",
+     seg_from="transforms = [int, int, float, float, float, float, int] + [float for _ in extras]",
+     seg_to="ignored_comment = ' '.join(names.cols())",
+     params=["names", "extras"],
+     vars={"names": "SWCNames7", "extras": "List String", "transforms": "List Int", "re_swc_cols": "List String", "re_swc_cols_str": "String",
+           "re_swc": "String", "last_group": "Int", "ignored_comment": "String"},
+     ret="Unit", out=["transforms", "re_swc", "last_group", "ignored_comment"],
+     subst={"RE_FLOAT": ("Gen.Consts.reFloat", "String"), "int": ("(0 : Int)", "Int"), "float": ("(1 : Int)", "Int")},
+     doc="`swcgeom/core/swc_utils/io.py::parse_swc`, the prologue from `transforms = …` to `ignored_comment = …`: the conversion per column "
+         "(0 = `int`, 1 = `float`), the TEXT of the regular expression as a function of the extra columns, the number of the trailing group, "
+         "the column header that is not kept as a comment")
+
+spec(lean="get_names", module="AlgoReadFront", file=_RF_BASE, func="get_names", callee=["get_names"], params=["names"],
+     vars={"names": "Option SWCNames7"}, ret="SWCNames7", subst={"swc_names": (_RF_DEFAULT_NAMES, "SWCNames7")},
+     doc="`swcgeom/core/swc_utils/base.py::get_names` (`swc_names` = `SWCNames()` is the record of the class defaults)")
+
+spec(lean="read_swc_front", module="AlgoReadFront", file="swcgeom/core/swc_utils/io.py", func="read_swc",
+     seg_from="names = get_names(names)", seg_to="df, comments = parse_swc(swc_file, names=names, extra_cols=extra_cols, encoding=encoding)",
+     params=["swc_file", "extra_cols", "encoding", "names"], tparams=["DF", "CM"],
+     fparams=["(parse_swc_ : Py.Src → SWCNames7 → (Option (List String)) → String → Option (DF × CM))"],
+     vars={"swc_file": "PySrc", "extra_cols": "Option (List String)", "encoding": "String", "names": "Option SWCNames7", "names#2": "SWCNames7",
+           "df": "DF", "comments": "CM"},
+     ret="Unit", out=["names#2", "df", "comments"],
+     doc="`swcgeom/core/swc_utils/io.py::read_swc`, first half: `names = get_names(names)` and the call of `parse_swc` (the pure parameter "
+         "`parse_swc_`, its arguments bound to the parameters of parse_swc's own `def`)")
